@@ -45,8 +45,22 @@ TDump == /\ IsEvent("dump")
          /\ UNCHANGED <<stateAt, from>>
 TRw == /\ IsEvent("rw") /\ bad' = bad \cup (IF Rec.same = 1 THEN {} ELSE {"rw"})
        /\ UNCHANGED <<stateAt, dumpAt, from>>
+\* field layout of a dump: "w" = runs <<kind, size, count>> of the fields the previous process wrote into the dump
+\* (kind f: floating point, n: integer, c: character of a string, o: other), "r" = runs of the
+\* fields the restarted process read from it.  Every field is read back with the kind and size it was written with, in
+\* the same order (the reader may stop before the end of the file, it may not read past it).
+\* A signed integer read back as an unsigned one of the same size (or the reverse) keeps every non-negative value, so
+\* the two integer kinds are one class here; the hook's runs are re-merged by class in scripts/props/c09.py.
+RunsMatch(w, r) ==
+    /\ Len(r) <= Len(w)
+    /\ \A i \in 1 .. Len(r) : /\ r[i][1] = w[i][1] /\ r[i][2] = w[i][2]
+                                /\ IF i < Len(r) THEN r[i][3] = w[i][3] ELSE r[i][3] <= w[i][3]
+TLayout == /\ IsEvent("layout")
+           /\ bad' = bad \cup (IF Len(Rec.w) > 0 /\ Len(Rec.r) > 0 /\ RunsMatch(Rec.w, Rec.r) THEN {} ELSE {"layout"})
+           /\ UNCHANGED <<stateAt, dumpAt, from>>
+
 TFail == IsEvent("fail") /\ bad' = bad \cup {"fail"} /\ UNCHANGED <<stateAt, dumpAt, from>>
-Next == TConfig \/ THist \/ TStep \/ TDump \/ TRw \/ TFail
+Next == TConfig \/ THist \/ TStep \/ TDump \/ TRw \/ TLayout \/ TFail
 Spec == Init /\ [][Next]_vars
 
 ASSUME TLCSet(1, 0)
@@ -59,7 +73,7 @@ ContinuationExact == "continuation" \notin bad
 \* stop / restart cycles (system-level "write, read back, write again")
 DumpIdempotent == "dump" \notin bad
 \* component level
-ComponentRoundTrip == "rw" \notin bad
+ComponentRoundTrip == bad \cap {"rw", "layout"} = {}
 \* premises of the comparison: the uninterrupted run is reproducible, restarts
 \* find their dump, every process ends normally
 ReferenceReproducible == "rerun" \notin bad
